@@ -50,7 +50,9 @@ def generate(seed, tier, index):
     for st in steps:
         st["style"]["decl"] = st["style"]["decl"] if st["style"]["decl"] in (0, 1) else 1
     eager = rng.randint(1, min(3, len(steps))) if world != "snoop" and rng.random() < 0.3 else 0
-    return {"world": world, "awkward": awkward, "steps": steps, "eager": eager,
+    # fault: the server hangs up the BLOB connection (only) in the middle of the stream; the control connection goes on
+    blob_eof_at = rng.randrange(len(steps)) if world == "net" and rng.random() < 0.25 else None
+    return {"world": world, "awkward": awkward, "steps": steps, "eager": eager, "blob_eof_at": blob_eof_at,
             "connect_delay": rng.choice([0.0, 0.0, 0.001, 0.5]),
             "net": {"latency": rng.choice(["zero", "lan", "slow", "bursty"]), "frag": rng.choice(["whole", "fixed:1", "fixed:7", "random", "coalesce"]), "hwm": 65536},
             "batch": rng.choice([1, 1, 3, 100]), "seed": rng.randrange(1 << 30)}
@@ -59,7 +61,7 @@ def generate(seed, tier, index):
 def execute(scen):
     net = scen["net"]
     cfg = NetConfig(latency=net["latency"], frag_default=net["frag"], hwm=net["hwm"], connect_delay=scen.get("connect_delay", 0.0))
-    viol, probes = [], {}
+    viol, probes, faults = [], {}, {}
     facts = {"world": scen["world"], "awkward": scen["awkward"]}
     n_eager = scen.get("eager", 0) if scen["world"] != "snoop" else 0
     eager_bytes = b""
@@ -128,9 +130,14 @@ def execute(scen):
             replaying[0] = k < len(early) - 1  # the client is already past them: compare the views once, after the last one
             after(v, None)
         replaying[0] = False
-        for st in scen["steps"][n_eager:]:
+        for k_step, st in enumerate(scen["steps"][n_eager:], start=n_eager):
             if viol:
                 break
+            if scen.get("blob_eof_at") == k_step and scen["world"] == "net":
+                sim.settle()
+                sim.do(world.close_blob_connection)
+                sim.settle()
+                faults["blob_connection_eof"] = 1
             spec = st["spec"]
             if spec.get("awkward"):
                 poisoned[0] = True
@@ -154,7 +161,12 @@ def execute(scen):
         if watchdog.S.tripped and not viol:
             viol.append({"clause": "C15.alive", "detail": f"watchdog {watchdog.S.tripped}", "facts": facts})
         if not viol:
-            bad = [f"{n}: {e!r}" for n, e in sim.loop.task_failures()]
+            # (a send task whose write hits the connection the server has hung up fails with a ConnectionError: in-flight
+            # traffic to a dead connection is lost, which is the fault, not the client's doing)
+            bad = [f"{n}: {e!r}" for n, e in sim.loop.task_failures()
+                   if not (getattr(world, "blob_closed", False) and isinstance(e, ConnectionError))]
+            if len(bad) != len(sim.loop.task_failures()):
+                probes["send_failed_on_hung_up_blob_connection"] = 1
             if bad:
                 viol.append({"clause": "C15.raise", "detail": f"a client task failed: {bad[:2]}", "facts": facts})
         if not viol and not world.alive():
@@ -178,7 +190,7 @@ def execute(scen):
         vtime, steps = sim.loop.time(), sim.loop.steps
     shape = tuple(s["spec"]["tag"][:3] for s in scen["steps"])
     sig = repr((scen["world"], scen["awkward"], shape, tuple(sorted(situations)), net["frag"]))
-    return {"violations": viol[:1], "digest": digest, "probes": probes, "faults": {}, "steps": steps, "vtime": vtime, "sig": sig,
+    return {"violations": viol[:1], "digest": digest, "probes": probes, "faults": faults, "steps": steps, "vtime": vtime, "sig": sig,
             "nontrivial": applied_updates > 0, "sample": {"world": scen["world"], "stream": [s["spec"]["tag"] for s in scen["steps"]][:20], "net": net}}
 
 
